@@ -72,6 +72,22 @@ def _old(run, n):
     return v
 
 
+def _has_ite(pats):
+    def walk(t, depth=0):
+        if depth > 60:
+            return False
+        if z3.is_app(t):
+            if t.decl().kind() == z3.Z3_OP_ITE:
+                return True
+            return any(walk(c, depth + 1) for c in t.children())
+        return False
+    for p in pats:
+        ts = [p.arg(i) for i in range(p.num_args())] if isinstance(p, z3.PatternRef) else [p]
+        if any(walk(t) for t in ts):
+            return True
+    return False
+
+
 def _quant(run, n, sort, mk, q):
     lam = n.args[0]
     if not isinstance(lam, ast.Lambda):
@@ -92,6 +108,8 @@ def _quant(run, n, sort, mk, q):
             pats = [z3.MultiPattern(*[x.term for x in ts])] if len(ts) > 1 else [ts[0].term]
     finally:
         run.frames[-1].env = saved
+    if pats is not None and _has_ite(pats):
+        pats = None         # z3 refuses if-then-else inside a trigger (and says so on stderr): let it choose
     if pats is not None:
         try:
             return BoolV(q(consts, body, patterns=pats))
@@ -427,7 +445,7 @@ _s = z3.Const('s', ASeq)
 _c = z3.Const('c', z3.ArraySort(Arm, Real))
 _i = z3.Int('i')
 smt.axiom('mvals.len', smt.forall([_s, _c], T.rlen(mvals(_s, _c)) == T.alen(_s), [mvals(_s, _c)]), ['mvals'])
-smt.axiom('mvals.at', smt.forall([_s, _c, _i], T.rat(mvals(_s, _c), _i) == _c[T.aat(_s, _i)], [T.rat(mvals(_s, _c), _i)]),
+smt.axiom('mvals.at', smt.forall([_s, _c, _i], z3.Implies(z3.And(0 <= _i, _i < T.alen(_s)), T.rat(mvals(_s, _c), _i) == _c[T.aat(_s, _i)]), [T.rat(mvals(_s, _c), _i)]),
           ['mvals'])
 
 
@@ -456,8 +474,8 @@ _d = z3.Const('d', ASeq)
 _r = z3.Const('r', RSeq)
 smt.axiom('binarized.len', smt.forall([_b, _d, _r], T.rlen(bmap(_b, _d, _r)) == T.rlen(_r), [bmap(_b, _d, _r)]),
           ['binarized'])
-smt.axiom('binarized.at', smt.forall([_b, _d, _r, _i], T.rat(bmap(_b, _d, _r), _i) ==
-                                     LC.apply_bin(_b, T.aat(_d, _i), T.rat(_r, _i)), [T.rat(bmap(_b, _d, _r), _i)]),
+smt.axiom('binarized.at', smt.forall([_b, _d, _r, _i], z3.Implies(z3.And(0 <= _i, _i < T.rlen(_r)), T.rat(bmap(_b, _d, _r), _i) ==
+                                     LC.apply_bin(_b, T.aat(_d, _i), T.rat(_r, _i))), [T.rat(bmap(_b, _d, _r), _i)]),
           ['binarized'])
 
 
@@ -787,9 +805,11 @@ def _indices_in_range(run, idx, n):
     from .lib import iat, ilen
     s = _idx_seq(run, idx)
     j = smt.bound('jidx', Int)
-    return BoolV(z3.ForAll([j], z3.Implies(z3.And(0 <= j, j < ilen(s.term)),
-                                           z3.And(0 <= iat(s.term, j), iat(s.term, j) < intterm(n))),
-                           patterns=[iat(s.term, j)]))
+    body = z3.Implies(z3.And(0 <= j, j < ilen(s.term)), z3.And(0 <= iat(s.term, j), iat(s.term, j) < intterm(n)))
+    try:
+        return BoolV(z3.ForAll([j], body, patterns=[iat(s.term, j)]))
+    except z3.Z3Exception:
+        return BoolV(z3.ForAll([j], body))       # the sequence term contains an if-then-else: let z3 pick the triggers
 
 
 @specfn('n_indices')
@@ -1024,3 +1044,144 @@ def _unfold_signcode(run, X, P, i):
                      patterns=[signcode(row, P.term, nxt)])
     run.st.assume(z3.Implies(it >= 0, inst))
     return BoolV(z3.BoolVal(True))
+
+
+# ------------------------------------------------------------------------------ int-keyed dictionaries (LSH tables)
+def _imap(run, v):
+    if isinstance(v, Ref) and isinstance(run.deref(v), IMapO):
+        return run.deref(v)
+    raise Unsupported('spec: expected a dict keyed by range(n), got %r' % (v,))
+
+
+@specfn('ntables')
+def _ntables(run, m):
+    """number of keys of a dict keyed by range(n)"""
+    return Num(_imap(run, m).n)
+
+
+@specfn('plane')
+def _plane(run, m, k):
+    """the hyperplane matrix of table k"""
+    return MatV(_imap(run, m).vals[intterm(k)])
+
+
+@specfn('bucket')
+def _bucket(run, m, k, h):
+    """the index list stored under hash value h of table k (empty when the key is absent)"""
+    return SeqV('I', _imap(run, m).vals[intterm(k)][real(h)], True)
+
+
+@specfn('shifted')
+def _shifted(run, u, c):
+    """u + c element-wise for an index sequence"""
+    return SeqV('I', F('ishift', ISeq, Int, ISeq)(_seq(run, u, 'I').term, intterm(c)), True)
+
+
+@specfn('iconcat')
+def _iconcat(run, u, v):
+    return SeqV('I', F('iconcat', ISeq, ISeq, ISeq)(_seq(run, u, 'I').term, _seq(run, v, 'I').term), True)
+
+
+@specfn('where_eq')
+def _where_eq(run, r, h):
+    """positions of the value h in the real sequence r, ascending (np.where(r == h)[0])"""
+    la = _la()
+    from .libnp import reqmask
+    return SeqV('I', la.where(reqmask(_seq(run, r, 'R').term, real(h))), True)
+
+
+# ---- membership in index lists, and the LSH collision predicate (C11)
+imem = F('imem', ISeq, Int, Bool)
+_u1 = z3.Const('u1', ISeq)
+_u2 = z3.Const('u2', ISeq)
+_jm = z3.Int('jm')
+_LAi = None
+smt.axiom('imem.concat', smt.forall([_u1, _u2, _jm], imem(F('iconcat', ISeq, ISeq, ISeq)(_u1, _u2), _jm) ==
+                                    z3.Or(imem(_u1, _jm), imem(_u2, _jm)),
+                                    [imem(F('iconcat', ISeq, ISeq, ISeq)(_u1, _u2), _jm)]), ['imem'])
+smt.axiom('imem.empty', smt.forall([_u1, _jm], z3.Implies(F('ilen', ISeq, Int)(_u1) == 0, z3.Not(imem(_u1, _jm))),
+                                   [imem(_u1, _jm)]), ['imem'])
+smt.axiom('imem.at', smt.forall([_u1, _i], z3.Implies(z3.And(0 <= _i, _i < F('ilen', ISeq, Int)(_u1)),
+                                                      imem(_u1, F('iat', ISeq, Int, Int)(_u1, _i))),
+                                [F('iat', ISeq, Int, Int)(_u1, _i)]), ['imem'])
+ipos = F('ipos', ISeq, Int, Int)
+smt.axiom('imem.pos', smt.forall([_u1, _jm], z3.Implies(imem(_u1, _jm), z3.And(
+    0 <= ipos(_u1, _jm), ipos(_u1, _jm) < F('ilen', ISeq, Int)(_u1),
+    F('iat', ISeq, Int, Int)(_u1, ipos(_u1, _jm)) == _jm)), [imem(_u1, _jm)]), ['imem'])
+
+HTab = z3.ArraySort(Int, z3.ArraySort(Real, ISeq))
+PTab = z3.ArraySort(Int, smt.Mat)
+collides = F('lsh_collides', HTab, PTab, RSeq, Int, Int, Bool)     # j is in bucket(k, code_k(x)) for some k < n
+
+
+@specfn('imem')
+def _imem(run, u, j):
+    """j occurs in the index list u"""
+    return BoolV(imem(_seq(run, u, 'I').term, intterm(j)))
+
+
+def _lsh_code(Pt, x, k):
+    from .lib import mcols as _mc
+    return signcode(x, Pt[k], _mc(Pt[k]))
+
+
+@specfn('lsh_collides')
+def _lsh_collides(run, T_, P_, x, j, n):
+    """row x shares its sign pattern with stored row j under at least one of the first n hyperplane sets:
+    j is in bucket(k, signcode(x, plane_k)) for some k < n"""
+    return BoolV(collides(_imap(run, T_).vals, _imap(run, P_).vals, _seq(run, x, 'R').term, intterm(j), intterm(n)))
+
+
+@specfn('unfold_collides')
+def _unfold_collides(run, T_, P_, x, i):
+    """definitional unfolding of lsh_collides at table i (one step of the recursion over the tables)"""
+    Tt, Pt, xt, it = _imap(run, T_).vals, _imap(run, P_).vals, _seq(run, x, 'R').term, intterm(i)
+    j = smt.bound('jc', Int)
+    nxt = smt.fresh('next_k', Int)
+    run.st.assume(nxt == it + 1)
+    inst = z3.ForAll([j], collides(Tt, Pt, xt, j, nxt) ==
+                     z3.Or(collides(Tt, Pt, xt, j, it), imem(Tt[it][_lsh_code(Pt, xt, it)], j)),
+                     patterns=[collides(Tt, Pt, xt, j, nxt)])
+    zero = z3.ForAll([j], z3.Not(collides(Tt, Pt, xt, j, 0)), patterns=[collides(Tt, Pt, xt, j, 0)])
+    run.st.assume(z3.Implies(it >= 0, inst))
+    run.st.assume(zero)
+    return BoolV(z3.BoolVal(True))
+
+
+hashes = F('lsh_hashes', smt.Mat, smt.Mat, RSeq)        # get_context_hash(X, P): the code of every row of X under P
+_Xh = z3.Const('Xh', smt.Mat)
+_Ph = z3.Const('Ph', smt.Mat)
+smt.axiom('lsh_hashes.len', smt.forall([_Xh, _Ph], T.rlen(hashes(_Xh, _Ph)) == mrows(_Xh), [hashes(_Xh, _Ph)]), ['lsh_hashes'])
+
+
+def _hashes_at_axiom():
+    from .libcalls import mrow
+    smt.axiom('lsh_hashes.at', smt.forall([_Xh, _Ph, _i], z3.Implies(
+        z3.And(0 <= _i, _i < mrows(_Xh)),
+        T.rat(hashes(_Xh, _Ph), _i) == signcode(mrow(_Xh, _i), _Ph, mcols(_Ph))), [T.rat(hashes(_Xh, _Ph), _i)]),
+        ['lsh_hashes'])
+
+
+_hashes_at_axiom()
+
+
+@specfn('lsh_hashes')
+def _lsh_hashes(run, X, P):
+    """the hash value of every row of X under the hyperplanes P (what get_context_hash returns)"""
+    return SeqV('R', hashes(X.term, P.term))
+
+
+idedup = F('idedup', ISeq, ISeq)          # list(set(u))
+_ilen = F('ilen', ISeq, Int)
+smt.axiom('idedup.mem', smt.forall([_u1, _jm], imem(idedup(_u1), _jm) == imem(_u1, _jm), [imem(idedup(_u1), _jm)]), ['idedup'])
+smt.axiom('idedup.len', smt.forall([_u1], z3.And(_ilen(idedup(_u1)) <= _ilen(_u1), _ilen(idedup(_u1)) >= 0,
+                                                 (_ilen(idedup(_u1)) == 0) == (_ilen(_u1) == 0)), [idedup(_u1)]), ['idedup'])
+smt.axiom('idedup.distinct', smt.forall([_u1, _i, _jm], z3.Implies(
+    z3.And(0 <= _i, _i < _jm, _jm < _ilen(idedup(_u1))),
+    F('iat', ISeq, Int, Int)(idedup(_u1), _i) != F('iat', ISeq, Int, Int)(idedup(_u1), _jm)),
+    [(F('iat', ISeq, Int, Int)(idedup(_u1), _i), F('iat', ISeq, Int, Int)(idedup(_u1), _jm))]), ['idedup'])
+
+@specfn('idedup')
+def _idedup(run, u):
+    """list(set(u)): the members of u, each once"""
+    return SeqV('I', idedup(_idx_seq(run, u).term), True)
